@@ -2,8 +2,10 @@
 from __future__ import annotations
 import random
 
-OPT = ['', ' ', '  ', '\t', '\n', '\r\n', '\f', '\n  ', '/**/', ' /**/', '/**/ ', '/* * */', ' /*a*/ ', '/***/', ' /* > */ ']
-REQ = [f for f in OPT if any(c in ' \t\n\r\f' for c in f.replace('/* * */', '').replace('/*a*/', '').replace('/* > */', ''))]
+OPT = ['', ' ', '  ', '\t', '\n', '\r\n', '\f', '\n  ', '/**/', ' /**/', '/**/ ', '/* * */', ' /*a*/ ', '/***/', ' /* > */ ',
+       '/* "q" */', ' /* x, y */', '/*)*/', '/*]*/ ', "/* ' */", '/* **/', ' /*\\*/']
+import re as _re
+REQ = [f for f in OPT if any(c in ' \t\n\r\f' for c in _re.sub(r'/\*.*?\*/', '', f, flags=_re.S))]
 HEXSAFE = 'ghijklmnopqrstuvwxyzGHIJKLMNOPQRSTUVWXYZ_'
 
 
